@@ -44,8 +44,9 @@ class SimQueue:
                 return items.popleft()
             raise Empty()
         deadline = None if timeout is None else k.now + int(timeout * SEC)
-        if k.wait_until(lambda: len(items) > 0, deadline, "Queue.get"):
-            return items.popleft()
+        while k.wait_until(lambda: len(items) > 0, deadline, "Queue.get"):
+            if items:
+                return items.popleft()
         raise Empty()
 
     def get_nowait(self):
@@ -111,8 +112,11 @@ class SimLock:
                 return False
         else:
             deadline = None if timeout is None or timeout < 0 else k.now + int(timeout * SEC)
-            if not k.wait_until(lambda: not self.locked_flag, deadline, "Lock.acquire"):
-                return False
+            while True:
+                if not k.wait_until(lambda: not self.locked_flag, deadline, "Lock.acquire"):
+                    return False
+                if not self.locked_flag:    # (a slow-task stall may have let somebody else in)
+                    break
         self.locked_flag = True
         self.owner = me
         return True
